@@ -298,6 +298,11 @@ func handlerProps(r *eng.Run, id string) {
 }
 
 // checkErrorStop is C09's oracle on one node: returns executions.
+// sliceErr is an error whose dynamic type is not hashable (using it as a map key panics).
+type sliceErr []int
+
+func (sliceErr) Error() string { return "slice-typed error" }
+
 type typedNilErr struct{}
 
 func (*typedNilErr) Error() string { return "typed nil error" }
@@ -308,26 +313,56 @@ func errorVariants(sentinel error) []error {
 	var tn *typedNilErr
 	_, libErr := rjson.SkipValue([]byte(`[1,[2,3`), nil)
 	_, libErr2 := rjson.SkipValue([]byte(`{"a":}`), nil)
-	return []error{sentinel, tn, libErr, libErr2}
+	return []error{sentinel, tn, libErr, libErr2, sliceErr{1, 2}}
 }
+
+// c09Full decides whether the full matrix (all offsets, both base strategies, all error kinds) runs
+// on a node: once per class of node (reference state, class of the last byte, number of calls);
+// every node gets the reduced matrix (plain sentinel, decline-all base, offsets exact and MaxInt).
+var c09Seen = map[string]bool{}
 
 func checkErrorStop(r *eng.Run, kind byte, w []byte, nCalls int, sentinel0 error) int {
 	n := 0
+	cls := fmt.Sprintf("%c|%s|%s|%d", kind, ref.Run(w).Key(), eng.ClassSuffix(w, 1), nCalls)
+	full := !c09Seen[cls]
+	c09Seen[cls] = true
 	for vi, sentinel := range errorVariants(sentinel0) {
+		if !full {
+			break
+		}
 		if vi > 0 && nCalls > 0 {
 			// the other error kinds: every failing call index with the exact offset only
 			for k := 0; k < nCalls && k < 8; k++ {
-				calls, _, err := traverse(kind, w, nil, func(i int, data []byte) answer {
-					if i == k {
-						_, exact := ref.Run(data).FirstValue()
-						return answer{mode: 3, n: exact, err: sentinel}
+				var calls []hcall
+				var err error
+				same := false
+				var buf *rjson.Buffer
+				if _, unhashable := sentinel.(sliceErr); unhashable {
+					if k != 0 && k != nCalls-1 {
+						continue
 					}
-					return answer{mode: 0}
+					// a Buffer that has been used on a deep document before (large stack)
+					buf = deepUsedBuffer()
+				}
+				pan := guard(func() {
+					calls, _, err = traverse(kind, w, buf, func(i int, data []byte) answer {
+						if i == k {
+							_, exact := ref.Run(data).FirstValue()
+							return answer{mode: 3, n: exact, err: sentinel}
+						}
+						return answer{mode: 0}
+					})
+					same = sameErr(err, sentinel)
 				})
 				n++
-				if err != sentinel || len(calls) != k+1 {
+				if pan != "" {
+					r.Violation(eng.Replay{Engine: "handler", Entry: entryOf(kind), Sig: fmt.Sprintf("error-stop/panic/variant#%d/%s", vi, shortSig(w)), InputB64: append([]byte(nil), w...),
+						Expected: "the handler's error returned", Got: "panic: " + pan, Extra: map[string]interface{}{"kind": string(kind), "k": k, "variant": vi}})
+					continue
+				}
+				if !same || len(calls) != k+1 {
 					r.Violation(eng.Replay{Engine: "handler", Entry: entryOf(kind), Sig: fmt.Sprintf("error-stop/variant#%d/k=%d/%s", vi, k, shortSig(w)), InputB64: append([]byte(nil), w...),
-						Expected: fmt.Sprintf("the handler's own error value (%T) itself, %d handler calls", sentinel, k+1), Got: fmt.Sprintf("%s (identical=%v), %d calls", errStr(err), err == sentinel, len(calls)),
+						Expected: fmt.Sprintf("the handler's own error value (%T) itself, %d handler calls", sentinel, k+1), Got: fmt.Sprintf("%s (identical=%v), %d calls", errStr(err), same, len(calls)),
 						Extra: map[string]interface{}{"kind": string(kind), "k": k, "variant": vi}})
 				}
 			}
@@ -336,7 +371,13 @@ func checkErrorStop(r *eng.Run, kind byte, w []byte, nCalls int, sentinel0 error
 	sentinel := sentinel0
 	for k := 0; k < nCalls && k < 8; k++ {
 		for _, base := range []int{0, 1} {
+			if !full && base == 1 {
+				continue
+			}
 			for oi := 0; oi < 8; oi++ {
+				if !full && oi != 4 && oi != 7 {
+					continue
+				}
 				var made int
 				var off int
 				calls, p, err := traverse(kind, w, nil, func(i int, data []byte) answer {
@@ -401,4 +442,24 @@ func replayHandler(id string, rp *eng.Replay) (bool, string) {
 		return r.Violations() > 0, fmt.Sprintf("%d violations on this input", r.Violations())
 	}
 	return replayHostile(rp)
+}
+
+// sameErr compares error identity without panicking on unhashable / uncomparable dynamic types.
+func sameErr(a, b error) (same bool) {
+	defer func() {
+		if recover() != nil {
+			// both hold the same uncomparable dynamic type: compare by formatted value
+			same = fmt.Sprintf("%T%v", a, a) == fmt.Sprintf("%T%v", b, b)
+		}
+	}()
+	return a == b
+}
+
+var deep300 = append(bytes.Repeat([]byte("["), 300), bytes.Repeat([]byte("]"), 300)...)
+
+// deepUsedBuffer returns a new Buffer whose stack has been grown by a 300-deep document.
+func deepUsedBuffer() *rjson.Buffer {
+	b := &rjson.Buffer{}
+	rjson.Valid(deep300, b)
+	return b
 }
